@@ -91,7 +91,8 @@ def gen_project(rng, variant=0):
         "install(e1, e2, e3, liba, libb, inc)",
         "install(*data, directory=Path('p13', InstallRoot.datadir))",
         "install(man_page('doc/p13.1'))",
-        "pkg_config('p13', version='1.2.3', includes=[inc], libs=[liba, libb], requires=['zlib >= 1.0'])",
+        "pkg_config('p13', version='1.2.3', includes=[inc], libs=[liba, libb], requires=['zlib >= 1.0'], "
+        "conflicts=[('oldp13', '>=1,<2,!=1.5,!=1.6'), ('otherp13', '!=3,!=4,!=5,>0.5')])",
         "pkg_config('p13-static', version='1.2.3', includes=[inc], libs=[libs], auto_fill=False)",
         "t1 = executable('t1', files=['t1.c'], libs=[liba])",
         "t2 = executable('t2', files=['t2.c'], libs=[libb])",
@@ -104,6 +105,10 @@ def gen_project(rng, variant=0):
         "world = command('world', cmds=['echo world', [source_file('script.py'), e1]])",
         "gen = build_step(['gen1.c', 'gen1.h'], cmd=['python3', source_file('script.py'), e2])",
         "eg = executable('eg', files=[gen[0], 'main1.c'])",
+        # one step whose outputs lie in several (nested) directories, and consumers of them
+        "multi = build_step(['gen/%s/tbl.c', 'include/gen/tbl.h', 'doc/gen/tbl.txt', 'gen/tbl2.c', 'share/%s/t.dat'], "
+        "cmd=['python3', source_file('script.py'), 'multi'])" % (nm('m'), nm('s')),
+        "emulti = executable('bin/deep/emulti', files=[multi[0], multi[3], 'main2.c'], includes=[multi[1]])",
         "alias('hw', deps=[hello, world, eg])",
         "copy_file('%s')" % datas[0],
         "copy_files(data[1:], directory='copied')",
@@ -723,7 +728,7 @@ COMPS = ['a', 'b', 'c', '..', '..', '.', '', 'x.y', '...', '..a', 'é', 'a b', '
 
 def dec(name, r):
     from .common import d_str, d_list, d_opt
-    if name in ('determ.uniques', 'determ.explicit_of', 'determ.find_dirs_of'):
+    if name in ('determ.uniques', 'determ.explicit_of', 'determ.find_dirs_of', 'determ.split_texts'):
         return d_list(d_str, r)
     if name in ('determ.dict_of', 'determ.dict_first_of'):
         return [(d_str(p[0]), d_str(p[1])) for p in r]
@@ -849,6 +854,22 @@ def stage_w(rep, rng, n):
     _, us = gen.uni_tables()
     us = us + ' '
     calls, impl = [], []
+    # -- the specifiers of one pkg-config requirement: Requirement.split against sorted-by-text (split_texts true) of
+    # this run's enumeration of the simplified SpecifierSet
+    from bfg9000.builtins.pkg_config import Requirement
+    from bfg9000.versioning import SpecifierSet, simplify_specifiers
+    for _ in range(max(20, n // 10)):
+        lo, hi = rng.randint(0, 3), rng.randint(6, 9)
+        specs = [rng.choice(['>=', '>']) + str(lo)] * rng.randint(0, 1) + [rng.choice(['<=', '<']) + str(hi)] * rng.randint(0, 1) + \
+                ['!=%d.%d' % (rng.randint(lo + 1, hi - 1), rng.randint(0, 9)) for _ in range(rng.randint(0, 4))]
+        if not specs:
+            continue
+        text = ','.join(specs)
+        enum = [str(i) for i in simplify_specifiers(SpecifierSet(text))]
+        rep.case('specs:' + text, len(enum) > 1)
+        rep.count('requirement specifiers:%d' % min(len(enum), 4))
+        calls.append(('determ.split_texts', [True, enum]))
+        impl.append([str(x.version) for x in Requirement('p', text).split()] if enum else [])
     # -- de-duplicators and dicts
     for _ in range(n):
         l = gen_list(rng)
